@@ -19,7 +19,7 @@ func C09(tier string) int {
 	sp := &Spec{
 		ID: "C09", Level: "model_checking", Tier: tier, Harness: h,
 		LoadPkgs: []string{"pkg/bondmachine"},
-		Opts:     RunOpts{Inits: []string{"pkg/procbuilder", "pkg/bondmachine"}, ConfigBudgetS: 1500, TimeoutMs: 120000, Abstract: true},
+		Opts:     RunOpts{Inits: []string{"pkg/bmnumbers", "pkg/procbuilder", "pkg/bondmachine"}, ConfigBudgetS: 1500, TimeoutMs: 120000, Abstract: true},
 		Configs:  FilterConfigs(cfgs),
 		Assumptions: []string{
 			"narrowed claim: STATE ISOLATION only. Decided: (0) the result of VM.Step does not depend on the order in which the per-processor workers run (two orders of a run-until-block scheduler), (1) a processor's state does not depend on another, unbonded processor of the same VM, (2) a simulation's state does not depend on another simulation stepped in the same process - for all programs over {add,addp,cpy,dec,divp,inc,j,multp,nop,rset} of the stated size, all register values and ALL values of the hidden mutable state reachable from procbuilder.Allopcodes (found by walking the heap after init)",
